@@ -342,6 +342,15 @@ pub fn fuzz(pool: &[Op], n: usize, rng: &mut Rng, emit: &mut dyn FnMut(Op)) {
         if data_args.is_empty() {
             continue;
         }
+        if rng.chance(1, 16) {
+            // the whole argument wrapped in a matching pair of quotes / brackets
+            let i = data_args[rng.below(data_args.len())];
+            let (l, r): (&[u8], &[u8]) = *rng.pick(&[(&b"'"[..], &b"'"[..]), (b"\"", b"\""), (b"(", b")"), (b"[", b"]"), (b"<", b">"), (b"`", b"`"), (b" ", b" "), (b"{", b"}")]);
+            let mut v = l.to_vec();
+            v.extend(&op.args[i]);
+            v.extend(r);
+            op.args[i] = v;
+        }
         if data_args.len() >= 2 && rng.chance(1, 12) {
             // one argument becomes a copy of another (a name spelled like the pattern, a path equal
             // to the recorded name, ...), optionally followed by an ordinary mutation
